@@ -72,7 +72,7 @@ def check(dep, op, x, y, res):
 def gen_cases(ctx):
     rng = ctx.rng
     cases = []
-    signs = ["pos", "neg", "str", None]
+    signs = ["pos", "neg", "str", None, "pos0", "neg0"]
     for n in (1, 2):
         bs = pbx.small_boxes(n)
         pairs = list(itertools.product(bs, bs))
@@ -90,14 +90,14 @@ def gen_cases(ctx):
         op = rng.choice(["add", "sub", "mul", "div"])
         dep = rng.choice(["p", "o", "i"])
         sx, sy = rng.choice(signs), rng.choice(signs)
-        if op == "div" and sy in ("str", None):
+        if op == "div" and sy in ("str", None, "pos0", "neg0"):
             sy = rng.choice(["pos", "neg"])
         cases.append(("public-int", dep, op, pbx.int_box200(rng, sx), pbx.int_box200(rng, sy)))
     for _ in range(ctx.scale(20, 500)):
         op = rng.choice(["add", "sub", "mul", "div"])
         dep = rng.choice(["p", "o", "i"])
         sx, sy = rng.choice(signs), rng.choice(signs)
-        if op == "div" and sy in ("str", None):
+        if op == "div" and sy in ("str", None, "pos0", "neg0"):
             sy = rng.choice(["pos", "neg"])
         l1, r1, k1 = pbx.lib_box200(rng, sx)
         l2, r2, k2 = pbx.lib_box200(rng, sy)
